@@ -102,24 +102,33 @@ extern "C" void h_sharedvec_two_steps() {
   VF_END();
 }
 
-// Halfedges = three SharedVecs behind one interface
+// Halfedges = three SharedVecs behind one interface.  NOTE: SharedVec's copy
+// CONSTRUCTOR deep-copies; only copy ASSIGNMENT shares storage (this is how
+// Impl::Transform produces shared halfedges), so the second handle is made by
+// assignment.
 extern "C" void h_halfedges() {
   Halfedges h;
   unsigned n = 3 * (vf_nondet_u32() % 3);
   h.resize(n);
   for (unsigned i = 0; i < 6; i++)
     if (i < n) h.Set(i, vf_int(), vf_int(), vf_int());
-  Halfedges g = h;  // shares
+  Halfedges g;
+  g = h;  // shares all three arrays
   int s[6], p[6], q[6];
   for (unsigned i = 0; i < 6; i++)
     if (i < n) { s[i] = g.Start(i); p[i] = g.Pair(i); q[i] = g.Prop(i); }
-  unsigned op = vf_nondet_u32() % 5;
+  unsigned op = vf_nondet_u32() % 9;
   h.MakeUnique();
   if (op == 0 && n) h.MakeInvalid(vf_nondet_u32() % n);
   else if (op == 1 && n) h.Set(vf_nondet_u32() % n, vf_int(), vf_int(), vf_int());
   else if (op == 2) h.push_back(vf_int(), vf_int(), vf_int());
   else if (op == 3) h.resize(vf_range(0, 6));
-  else h.clear();
+  else if (op == 4) h.clear();
+  // the single-array setters (what FlipTris / ReindexFace use after MakeUnique)
+  else if (op == 5 && n) h.SetStart(vf_nondet_u32() % n, vf_int());
+  else if (op == 6 && n) h.SetPair(vf_nondet_u32() % n, vf_int());
+  else if (op == 7 && n) h.SetProp(vf_nondet_u32() % n, vf_int());
+  else if (op == 8 && n) h.SetEnd(vf_nondet_u32() % n, vf_int());
   VF_ASSERT(g.size() == n);
   for (unsigned i = 0; i < 6; i++)
     if (i < n) VF_ASSERT(g.Start(i) == s[i] && g.Pair(i) == p[i] && g.Prop(i) == q[i]);
